@@ -91,7 +91,6 @@ Proof.
   unfold R_none in HR. subst oh. rewrite HP. split; [intros [[_ X]|X]; [discriminate|exact X]|auto].
 Qed.
 
-Definition has_hid (n : node) (q : list ptok) (hid : N) : Prop := exists g, has_pattern n q (hid, g).
 
 Lemma frun_pats : forall ops root q hid,
   has_hid (frun root ops) q hid <-> has_hid root q hid \/ In (q, hid) (fregs root ops).
